@@ -1,11 +1,31 @@
-from jsim.envs.base import Adapter
+"""GraphColoring: rules written from docs/environments/graph_coloring.md and the class docstring.
+
+Undirected loop-less graph on num_nodes nodes (boolean adjacency matrix); num_colors == num_nodes. Nodes are
+coloured one at a time in index order: the action is the colour given to the *current* node
+(`current_node_index`). A colour is allowed for the current node iff no neighbour of that node already
+carries it ("the allowed color set for each node is updated after every action"). The episode ends when all
+nodes are coloured (reward = -(number of distinct colours used)) or on an invalid action (reward =
+-(total number of colours) = -num_nodes); every other step has reward 0.
+"""
+from __future__ import annotations
+
+from typing import Any, Optional
+
+import numpy as np
+
 from jsim.envs._mk import cfg
+from jsim.envs.base import Adapter
 
 
 class A(Adapter):
     name = "GraphColoring"
     mask_mode = "flat"
     terminate_on_invalid = True
+    has_invalid_effect = True
+    has_constraints = True
+    has_objective = True
+    has_model = True
+    has_observer = True
 
     def configs(self):
         return [cfg("n20p8", True, n=20, p=0.8), cfg("n6p5", True, n=6, p=0.5), cfg("n12p3", n=12, p=0.3), cfg("n3p9", n=3, p=0.9)]
@@ -17,3 +37,128 @@ class A(Adapter):
 
     def horizon(self, env, c):
         return c["n"]
+
+    # ---- rules ---------------------------------------------------------------------------------
+    @staticmethod
+    def _allowed(adj: np.ndarray, colors: np.ndarray, node: int) -> np.ndarray:
+        """Colours not carried by any already-coloured neighbour of `node`."""
+        n = len(colors)
+        out = np.ones(n, bool)
+        for j in range(n):
+            if j != node and (adj[node, j] or adj[j, node]) and colors[j] >= 0:
+                out[int(colors[j])] = False
+        return out
+
+    def legal(self, s: Any, env: Any) -> np.ndarray:
+        return self._allowed(np.asarray(s.adj_matrix), np.asarray(s.colors), int(s.current_node_index))
+
+    def describe(self, s, env, idx):
+        adj, colors, node = np.asarray(s.adj_matrix), np.asarray(s.colors), int(s.current_node_index)
+        nb = [j for j in range(len(colors)) if adj[node, j] or adj[j, node]]
+        return f"current node {node}, neighbours {nb} carry colours {[int(colors[j]) for j in nb]}, colour {idx[0]}"
+
+    @staticmethod
+    def _conflict(adj: np.ndarray, colors: np.ndarray) -> Optional[str]:
+        n = len(colors)
+        for i in range(n):
+            for j in range(i + 1, n):
+                if (adj[i, j] or adj[j, i]) and colors[i] >= 0 and colors[i] == colors[j]:
+                    return f"adjacent nodes {i} and {j} both carry colour {int(colors[i])}"
+        return None
+
+    # ---- C05 -------------------------------------------------------------------------------------
+    def invalid_effect(self, ps, action, illegal, s, ts, env, cfg):
+        n = len(np.asarray(ps.colors))
+        if int(ts.step_type) != 2:
+            return ("invalid_move_not_terminal", f"step_type {int(ts.step_type)} after illegal colour {int(action)} for node {int(ps.current_node_index)}")
+        if not np.isclose(float(ts.reward), -float(n), rtol=1e-5, atol=1e-6):
+            return ("invalid_move_reward", f"reward {float(ts.reward)} on an illegal move, documented: -(total number of colours) = {-n}")
+        if float(ts.discount) != 0.0:
+            return ("invalid_move_discount", f"discount {float(ts.discount)} != 0 on the terminal step")
+        return None
+
+    # ---- C06 -------------------------------------------------------------------------------------
+    def constraints(self, hist, env, cfg):
+        s = hist[-1].state
+        adj, colors = np.asarray(s.adj_matrix), np.asarray(s.colors)
+        n = len(colors)
+        if not np.array_equal(adj, np.asarray(hist[0].state.adj_matrix)):
+            return ("graph_changed", "adjacency matrix differs from the one of the reset state")
+        # the colouring claimed by the state must be the one the action history produced: node t-1 got action t
+        want = np.full(n, -1, dtype=np.int64)
+        for rec in hist[1:]:
+            if rec.t - 1 >= n:
+                return ("more_steps_than_nodes", f"step {rec.t} on a graph of {n} nodes")
+            want[rec.t - 1] = int(rec.action)
+        if not np.array_equal(colors, want):
+            i = int(np.flatnonzero(colors != want)[0])
+            return ("colors_differ_from_history", f"node {i} carries {int(colors[i])}, the action history gives {int(want[i])}")
+        c = self._conflict(adj, colors)
+        if c is not None:
+            return ("adjacent_nodes_share_colour", c)
+        if len(hist) > 1 and int(hist[-1].ts.step_type) == 2 and (colors < 0).any():
+            return ("ended_incomplete", f"mask-respecting episode ended with uncoloured nodes {np.flatnonzero(colors < 0).tolist()}")
+        return None
+
+    # ---- C08 -------------------------------------------------------------------------------------
+    def objective(self, hist, env, cfg):
+        if int(hist[-1].ts.step_type) != 2:
+            return None
+        colors = np.asarray(hist[-1].state.colors)
+        if (colors < 0).any():
+            return None  # not a completion (the objective is documented for completed colourings)
+        return -float(len(set(int(c) for c in colors)))
+
+    # ---- C09 -------------------------------------------------------------------------------------
+    def model_step(self, ps, action, s, ts, env, cfg):
+        adj, pc, node = np.asarray(ps.adj_matrix), np.asarray(ps.colors), int(ps.current_node_index)
+        n = len(pc)
+        a = int(action)
+        if not self._allowed(adj, pc, node)[a]:
+            # terminate-on-invalid: only reward / done are specified
+            if int(ts.step_type) != 2:
+                return ("termination", f"illegal colour {a} for node {node} did not end the episode")
+            if not np.isclose(float(ts.reward), -float(n), rtol=1e-5, atol=1e-6):
+                return ("reward", f"reward {float(ts.reward)} after an illegal move, expected {-n}")
+            return None
+        nc = pc.copy()
+        nc[node] = a
+        if not np.array_equal(np.asarray(s.colors), nc):
+            return ("colors", f"colors {np.asarray(s.colors).tolist()} after giving colour {a} to node {node}, expected {nc.tolist()}")
+        if not np.array_equal(np.asarray(s.adj_matrix), adj):
+            return ("adj_matrix", "adjacency matrix changed during a step")
+        done = bool((nc >= 0).all())
+        want_reward = -float(len(set(int(c) for c in nc))) if done else 0.0
+        if (int(ts.step_type) == 2) != done:
+            return ("termination", f"step_type {int(ts.step_type)} after the legal colour {a} for node {node}, but the rules say done={done} "
+                    f"(uncoloured nodes left: {int((nc < 0).sum())})")
+        if not np.isclose(float(ts.reward), want_reward, rtol=1e-5, atol=1e-6):
+            return ("reward", f"reward {float(ts.reward)} expected {want_reward} (done={done})")
+        if not done and int(s.current_node_index) != node + 1:
+            # (after completion the index of the "next" node is not specified)
+            return ("current_node_index", f"current_node_index {int(s.current_node_index)} after colouring node {node}, expected {node + 1}")
+        return None
+
+    # ---- C11 -------------------------------------------------------------------------------------
+    def end_cause(self, ps, action, s, ts, env, cfg):
+        if not self.legal(ps, env)[int(action)]:
+            return "invalid_action"
+        if (np.asarray(s.colors) >= 0).all():
+            return "all_nodes_coloured"
+        return None
+
+    # ---- C12 -------------------------------------------------------------------------------------
+    def observe(self, s, obs, env, cfg):
+        for f in ("adj_matrix", "colors", "action_mask"):
+            if not np.array_equal(np.asarray(getattr(obs, f)), np.asarray(getattr(s, f))):
+                return (f, f"obs.{f} {np.asarray(getattr(obs, f)).tolist()} != state.{f} {np.asarray(getattr(s, f)).tolist()}")
+        if int(obs.current_node_index) != int(s.current_node_index):
+            return ("current_node_index", f"obs {int(obs.current_node_index)} vs state {int(s.current_node_index)}")
+        return None
+
+    # ---- policies ----------------------------------------------------------------------------------
+    def policy_complete(self, s, env, rng, legal):
+        """Greedy colouring: lowest allowed colour (always completes when the allowed set is honoured)."""
+        if legal is None or not legal.any():
+            return None
+        return int(np.flatnonzero(legal)[0])
